@@ -96,6 +96,13 @@ def gen_rdset(rng, tier):
     (real Rdata::equals) every name-bearing type with case variants of the embedded names, fixed-field variants and
     malformed RDATA (compared octet-wise), in the classes where SRV / A change their comparison rule."""
     n = 4000 if tier == "quick" else 200000
+    # RDATA at the largest lengths the 16-bit length prefix of the set's buffer can express (and one below)
+    for _ in range(6 if tier == "quick" else 60):
+        big = [(rng.choice(["00", "61", "ff"]) * rng.choice([65535, 65534, 65533, 65532])) for _ in range(rng.randint(1, 2))]
+        small = rng.choice(["-", "61", "00ff"])
+        order = big + [small] + ([big[0]] if rng.random() < 0.5 else [])
+        rng.shuffle(order)
+        yield f"B {rng.choice([1, 3])} {rng.choice([99, 65280, 16])} {','.join(order)}"
     named = list(zg.ONE_NAME_TYPES) + [zg.T_MX, zg.T_MX, zg.T_SOA, zg.T_SOA, zg.T_MINFO, zg.T_SRV, zg.T_SRV, zg.T_A]
     for _ in range(n):
         cls = rng.choice([1, 1, 3, 7])
